@@ -63,7 +63,7 @@ class RecWorld(ConnWorld):
         try:
             kw: dict[str, Any] = {} if key_text is None else {"noise": True, "noise_psk_text": key_text}
             super().__init__(client=True, keepalive=1e6, login=True, device_name="dev",
-                             addresses=("dev.local",) if hostname else ("10.0.0.1",), **kw)
+                             addresses=((hostname if isinstance(hostname, str) else "dev.local"),) if hostname else ("10.0.0.1",), **kw)
         except BaseException:
             zmod.Zeroconf, zmod.AsyncZeroconf, hr.AsyncServiceInfo = self._saved_zc  # type: ignore[misc]
             raise
@@ -381,6 +381,11 @@ class RecHarness:
             w.spawn(f"rl_stop#{w.counter}", lambda: w.rl.stop())
         elif label in ("tcp_ok", "tcp_refused"):
             io = True
+            if not w.net.connecting():
+                # only reachable from a seed or a directed history: the attempt they rely on never opened a socket
+                w.viol.append(f"C18:no-attempt: no connection attempt is in flight where the history expects one (the address did not resolve to a socket; "
+                              f"resolver lookups so far: mDNS {[n for n, _ in w.zlog.requests][-2:]}, OS {w.net.gai_calls[-2:]})")
+                return
             s = w.net.connecting()[0]
             w.io_connect(s, 0 if label == "tcp_ok" else 111)
         elif label == "hello_ok":
@@ -625,6 +630,7 @@ SEEDS: list[tuple[Any, ...]] = [
     (("rl_start", "tcp_refused"), False, True),
     (("rl_start", "tcp_ok", "hello_ok"), False, True),
     (("rl_start", "tcp_ok", "hello_ok", "rl_stop"), False),  # stopped, the session still alive
+    (("rl_start", "tcp_refused"), False, "dev.local."),  # the address written fully qualified (trailing dot), no name given
     (("rl_start", "tcp_ok"), False, False, True),  # the application's on_connect callback raises
     (("rl_start", "tcp_refused", "time", "tcp_ok"), False, False, True),
 ]
@@ -676,7 +682,7 @@ def run(tier: str, seed: int) -> Result:
     per = []
     for i, cfg in enumerate(SEEDS):
         sd, supplied = cfg[0], cfg[1]
-        hostname = bool(cfg[2]) if len(cfg) > 2 else False
+        hostname = (cfg[2] if isinstance(cfg[2], str) else bool(cfg[2])) if len(cfg) > 2 else False
         connect_raises = bool(cfg[3]) if len(cfg) > 3 else False
         depth, bound = (4, 1) if q else (6, 2)
         left = max(5.0, (t_end - time.monotonic()) / (len(SEEDS) - i))
